@@ -11,16 +11,20 @@ ID = 'C06'
 LEAN_MODULE = 'PncProofs.C06'
 LEAN_FILE = 'PncProofs/C06.lean'
 NAMESPACE = 'Props.C06'
-LEAN_CONE = ['PncModel.Arr', 'PncModel.File', 'PncProofs.ArrLemmas', 'PncProofs.C06']
-LEMMA_FILES = []
+LEAN_CONE = ['PncModel.Arr', 'PncModel.File', 'PncProofs.ArrLemmas', 'PncProofs.FiberLemmas', 'PncProofs.C03', 'PncProofs.C01',
+             'PncProofs.NamesLemmas', 'PncProofs.C06']
+LEMMA_FILES = ['PncProofs/NamesLemmas.lean']
 REQUIRED_THEOREMS = ['zip_get', 'op_masked_operand', 'op_add_mul', 'op_div_zero', 'op_div', 'coords_passthrough',
-                     'missing_right_copied', 'maskHit_iff', 'mask_exact', 'get_build', 'bcast_cell', 'rightData_same']
+                     'missing_right_copied', 'maskHit_iff', 'mask_exact', 'get_build', 'bcast_cell', 'rightData_same',
+                     'eval_pointwise', 'pncexpr_resolves', 'pncexpr_sound', 'eval_resolves', 'evalIn_eq_eval',
+                     'pncexpr_eq_eval', 'evalns_eq_eval', 'constants_last_counterexample', 'evalInto_spec', 'eval_creates',
+                     'pncexpr_creates']
 RULE = ('kind binop: two conforming files (same dimensions/variables, float64 or int32, masked operands, zero and '
         'negative divisors, small integer and half-integer values, declared coordinate variables, a variable '
         'missing on the right) x the 13 operators + - * / // ** % < <= > >= == !=; kind mask: every subset of '
         'where (by dims or by shape) / greater / greater_equal / less / less_equal / equal, coords on/off, already '
         'masked cells; kind eval: assignments of expressions (+ - * / unary -, literals) over 1-3 variables of one '
-        'shape, into a new variable or (inplace) onto an existing variable of another type / maskedness; divisors incl. tiny non-zero values (2^-27 .. 2^-40); non-trivial = a masked or zero-divisor cell is involved, or two predicates are combined; half-integer bounds also on integer variables; eval on files with a global attribute named like a variable of the expression; kind chain: two operations in a row (arithmetic with a second / third file, mask) on files with declared coordinates, judged by numpy.ma and \'coordinates pass through from the left operand\'')
+        'shape, into a new variable or (inplace) onto an existing variable of another type / maskedness; divisors incl. tiny non-zero values (2^-27 .. 2^-40); non-trivial = a masked or zero-divisor cell is involved, or two predicates are combined; half-integer bounds also on integer variables; eval on files with a global attribute named like a variable of the expression; kind chain: two operations in a row (arithmetic with a second / third file, mask) on files with declared coordinates, run through the model (runChain) and judged by numpy.ma and \'coordinates pass through from the left operand\'; kind twice: two eval calls on one object (evalInto twice); eval through pncexpr on files whose variables are named like scipy constants / helper functions (the namespace model pncexprEnv); mask(dims=[list])')
 ASSUMPTIONS = ['float64 results are compared with exact rationals within 1e-12 relative',
                'results of file arithmetic take the dtype numpy gives the expression (not the declared dtype)',
                'coordinate variables are the variables declared with setCoords()']
@@ -28,6 +32,9 @@ MIN_NONTRIVIAL = {'quick': 60, 'thorough': 600}
 
 OPS = {'add': '+', 'sub': '-', 'mul': '*', 'div': '/', 'floordiv': '//', 'pow': '**', 'mod': '%',
        'lt': '<', 'le': '<=', 'gt': '>', 'ge': '>=', 'eq': '==', 'ne': '!='}
+
+
+CONSTNAMES = ['g', 'c', 'h', 'k', 'R', 'e', 'pi', 'G', 'hour', 'day', 'bar', 'atm', 'inch', 'N', 'u', 'mil', 'eV', 'hbar', 'sigma', 'alpha']
 
 
 def _vals(rng, size, isint, masked, divisor=False, exponent=False):
@@ -100,6 +107,7 @@ def _case(rng):
             tv = rng.choice(cand)
             where = dict(dims=tv['dims'], bits=[rng.randint(0, 1) for _ in tv['data']],
                          bydims=rng.random() < 0.5)
+            where['aslist'] = where['bydims'] and rng.random() < 0.4       # dims=['t', 'x'] rather than ('t', 'x')
             if rng.random() < 0.35:
                 # the condition is itself a masked array (a comparison on a variable with missing cells): 2 = masked
                 # there, with False left in the buffer under the mask
@@ -117,6 +125,17 @@ def _case(rng):
     for v in same:
         v['data'] = _vals(rng, len(v['data']), False, v['masked'])
         v['dtype'] = 'd'
+    via = 'eval'
+    if rng.random() < 0.3:
+        # the command-line expression front end (pncexpr), on files whose variables are named like the physical constants and
+        # helper functions it makes available to expressions (g, c, h, k, R, e, pi ...): the file's variable is meant
+        via = 'pncexpr'
+        used = {v['name'] for v in spec['vars']} | {d[0] for d in spec['dims']}
+        pool = [n for n in CONSTNAMES if n not in used]
+        rng.shuffle(pool)
+        for v in same:
+            if rng.random() < 0.7 and pool:
+                v['name'] = pool.pop()
 
     def expr(depth):
         k = rng.random()
@@ -154,7 +173,9 @@ def _case(rng):
     if rng.random() < 0.25:
         # a global attribute with the name of a variable of the expression (legal in netCDF: P0 of hybrid-sigma files)
         spec['attrs'] = list(spec['attrs']) + [rng.choice(_all_vars(e))]
-    return dict(kind=kind, spec=spec, expr=e, target=target, coords=coords, inplace=inplace)
+    if via == 'pncexpr':
+        inplace = True          # pncexpr adds the result to a wrapper around the whole file
+    return dict(kind=kind, spec=spec, expr=e, target=target, coords=coords, inplace=inplace, via=via)
 
 
 def _chain_case(rng):
@@ -286,7 +307,7 @@ def impl(case):
                         arr = np.ma.masked_array(arr, mask=(bits == 2))
                     kw['where'] = arr
                     if w['bydims']:
-                        kw['dims'] = tuple(w['dims'])
+                        kw['dims'] = list(w['dims']) if w.get('aslist') else tuple(w['dims'])
                 if case.get('fillarg') is not None:
                     kw['fill_value'] = case['fillarg']
                 o = f.mask(coords=case['maskcoords'], **kw)
@@ -294,7 +315,11 @@ def impl(case):
                 f = pfile.build(case['spec'])
                 f.setCoords(case['coords'])
                 with np.errstate(all='ignore'):
-                    o = f.eval('%s = %s' % (case['target'], _py(case['expr'])), inplace=bool(case.get('inplace')))
+                    if case.get('via') == 'pncexpr':
+                        from PseudoNetCDF.core._functions import pncexpr
+                        o = pncexpr('%s = %s' % (case['target'], _py(case['expr'])), f)
+                    else:
+                        o = f.eval('%s = %s' % (case['target'], _py(case['expr'])), inplace=bool(case.get('inplace')))
         return dict(obs=pfile.observe(o))
     except Exception as e:
         return dict(err=type(e).__name__, msg=str(e)[:100])
@@ -302,8 +327,11 @@ def impl(case):
 
 def to_line(case, res):
     co = '.'.join(case['coords']) or '-'
-    if case['kind'] in ('chain', 'twice'):
-        return 'c06 nop'            # no model question: two modelled steps in a row, judged by the oracle
+    if case['kind'] == 'twice':
+        return 'c06 twice %s %s %s' % (case['how'], case['var'], ' '.join(pfile.encode(case['spec'])))
+    if case['kind'] == 'chain':
+        steps = ['bin@%s' % st[1] if st[0] == 'bin' else 'mask@%s@%s' % (st[1], st[2]) for st in case['steps']]
+        return 'c06 chain %s %s %s' % (co, ' '.join(' '.join(pfile.encode(sp)) for sp in case['specs']), ' '.join(steps))
     if case['kind'] == 'binop':
         return 'c06 binop %s %s %s %s' % (case['op'], co, ' '.join(pfile.encode(case['f1'])), ' '.join(pfile.encode(case['f2'])))
     if case['kind'] == 'mask':
@@ -314,6 +342,16 @@ def to_line(case, res):
             co, 1 if case['maskcoords'] else 0, ' '.join(pfile.encode(case['spec'])),
             ('.'.join(w['dims']) if (w and (w['bydims'] or True)) else '_') if w else '_',
             lib.show_list(w['bits']) if w else '-', g('greater'), g('greater_equal'), g('less'), g('less_equal'), g('equal'))
+    if case.get('via') == 'pncexpr':
+        # the helper functions and physical constants that exist under a name of the file (what the namespace holds is the
+        # installed scipy's and userfuncs' business; which binding wins is the model's)
+        import scipy.constants
+        from PseudoNetCDF import userfuncs
+        names = [v['name'] for v in case['spec']['vars']] + [case['target']]
+        hs = [n for n in names if n in dir(userfuncs)]
+        cs = [n for n in names if n in dir(scipy.constants)]
+        return 'c06 pncexpr %s %s %s %s %s %s' % (case['target'], ','.join(_flat(case['expr'])), co, ' '.join(pfile.encode(case['spec'])),
+                                                 '.'.join(hs) or '-', '.'.join(cs) or '-')
     line = 'c06 eval %s %s %s %s' % (case['target'], ','.join(_flat(case['expr'])), co, ' '.join(pfile.encode(case['spec'])))
     return line + (' 1' if case.get('inplace') else '')
 
@@ -323,8 +361,6 @@ def _strip_flags(text):
 
 
 def agree(case, out, res):
-    if case['kind'] in ('chain', 'twice'):
-        return None
     if 'err' in res:
         return None if out.startswith('err') else 'impl raised %s (%s), model %s' % (res['err'], res.get('msg'), out[:80])
     if not out.startswith('ok '):
@@ -336,6 +372,12 @@ def agree(case, out, res):
         shp = [dl[k] for k in case['where']['dims']]
         if any([dl[k] for k in v['dims']] == shp and v['dims'] != case['where']['dims'] for v in case['spec']['vars']):
             return None
+    if case['kind'] == 'twice':
+        a, b = pfile.parse_obs(out[3:]), pfile.parse_obs(res['obs'])
+        for t in ('FIRST', 'SECOND', case['var']):
+            if t in a['vars'] and t in b['vars']:
+                b['vars'][t]['attrs'] = a['vars'][t]['attrs']
+        return pfile.diff_parsed_numeric(a, b)
     if case['kind'] == 'eval':
         # attributes of the new variable are inherited through numpy subclass propagation: not part of C06
         a, b = pfile.parse_obs(out[3:]), pfile.parse_obs(res['obs'])
